@@ -10,7 +10,7 @@ SPEC = {
             "C04_lookup_exact_wins", "C04_lookup_sound", "C04_lookup_binding_key", "C04_lookup_ignores_other",
             "C04_lookup_none", "C04_rebind_refused", "C04_bind_vacant", "C04_reachable_wf",
             "C04_end_to_end", "C04_end_to_end_wire", "C04_send_limit", "C04_unbound_dropped",
-            "C04_order_insensitive", "C04_validate_sound", "C04_example_validate", "C04_remark_as_coded",
+            "C04_order_insensitive", "C04_validate_sound", "C04_validate_link_dst", "C04_example_validate", "C04_remark_as_coded",
         ],
         "allow_axioms": [],
     },
@@ -19,7 +19,7 @@ SPEC = {
         # IPv4 frames on the link, recorder events) is judged by the Rust property oracle and, independently, by the
         # extracted validator (C04_validate_sound)
         {"name": "stack_validate", "bin": "c04_udp", "model": "demux", "kind": "validate",
-         "n_quick": 320, "n_thorough": 40000, "shards": 8, "shards_thorough": 16,
+         "n_quick": 480, "n_thorough": 40000, "shards": 8, "shards_thorough": 16,
          "trivial_re": r"^(ERR|PANIC|REJECT|CRASH)"},
     ],
     "rule": "case = one scenario: 2..5 machines on one network (MTU 68/100/576/1500/65535, link latency 0/0.5/2 ms), "
